@@ -1067,6 +1067,12 @@ fn quote_trait(input: &DataType, ctx: &mut ImplContext) -> TokenStream {
     }
 }
 
+fn quote_err_ty(ctx: &ImplContext) -> TokenStream {
+    let err_ty = ctx.struct_attr.err_ty.as_ref().unwrap();
+    let (path, generics) = (&err_ty.path, &err_ty.generics);
+    quote!(#path #generics)
+}
+
 fn quote_from_trait(input: &DataType, ctx: &ImplContext, pre_init: Option<TokenStream>, init: TokenStream) -> TokenStream {
     let QuoteTraitParams { attr, impl_attr, inner_attr, dst, src, these_gens, those_gens, impl_gens, where_clause, r } = get_quote_trait_params(input, ctx);
     quote! {
@@ -1084,7 +1090,7 @@ fn quote_from_trait(input: &DataType, ctx: &ImplContext, pre_init: Option<TokenS
 
 fn quote_try_from_trait(input: &DataType, ctx: &ImplContext, pre_init: Option<TokenStream>, init: TokenStream) -> TokenStream {
     let QuoteTraitParams { attr, impl_attr, inner_attr, dst, src, these_gens, those_gens, impl_gens, where_clause, r } = get_quote_trait_params(input, ctx);
-    let err_ty = &ctx.struct_attr.err_ty.as_ref().unwrap().path;
+    let err_ty = &quote_err_ty(ctx);
     quote! {
         #impl_attr
         impl #impl_gens ::core::convert::TryFrom<#r #src #those_gens> for #dst #these_gens #where_clause {
@@ -1129,7 +1135,7 @@ fn quote_into_trait(input: &DataType, ctx: &ImplContext, pre_init: Option<TokenS
 
 fn quote_try_into_trait(input: &DataType, ctx: &ImplContext, pre_init: Option<TokenStream>, init: TokenStream, post_init: Option<TokenStream>) -> TokenStream {
     let QuoteTraitParams { attr, impl_attr, inner_attr, dst, src, these_gens, those_gens, impl_gens, where_clause, r } = get_quote_trait_params(input, ctx);
-    let err_ty = &ctx.struct_attr.err_ty.as_ref().unwrap().path;
+    let err_ty = &quote_err_ty(ctx);
 
     let body = match post_init {
         Some(post_init) => quote! {
@@ -1175,7 +1181,7 @@ fn quote_into_existing_trait(input: &DataType, ctx: &ImplContext, pre_init: Opti
 
 fn quote_try_into_existing_trait(input: &DataType, ctx: &ImplContext, pre_init: Option<TokenStream>, init: TokenStream, post_init: Option<TokenStream>) -> TokenStream {
     let QuoteTraitParams { attr, impl_attr, inner_attr, dst, src, these_gens, those_gens, impl_gens, where_clause, r } = get_quote_trait_params(input, ctx);
-    let err_ty = &ctx.struct_attr.err_ty.as_ref().unwrap().path;
+    let err_ty = &quote_err_ty(ctx);
     quote! {
         #impl_attr
         impl #impl_gens o2o::traits::TryIntoExisting<#dst #those_gens> for #r #src #these_gens #where_clause {
